@@ -299,6 +299,24 @@ func runC12(c runCfg) error {
 	} else {
 		specs = append(specs, spec{"fat-client", []byte(c12Fat), gen.Options{API: true, Client: true, DoNotEdit: true, Cors: true}})
 		specs = append(specs, spec{"fat", []byte(c12Fat), gen.Options{API: true, DoNotEdit: false}})
+		// documents the generator refuses: the refusal (its text included) must be the same on every run
+		head := `{"openapi":"3.0.0","info":{"title":"t","version":"1"},`
+		ok200 := `"responses":{"200":{"description":"ok"}}`
+		for n, d := range []string{
+			// one requirement naming four schemes
+			head + `"paths":{"/a":{"get":{"security":[{"k4":[],"k2":[],"k3":[],"k1":[]}],` + ok200 + `}}},"components":{"securitySchemes":{` +
+				`"k1":{"type":"apiKey","in":"header","name":"X-K1"},"k2":{"type":"apiKey","in":"header","name":"X-K2"},` +
+				`"k3":{"type":"apiKey","in":"header","name":"X-K3"},"k4":{"type":"apiKey","in":"header","name":"X-K4"}}}}`,
+			// several clashing declarations at once
+			head + `"paths":{"/a":{"get":{` + ok200 + `}}},"components":{"schemas":{"API":{"type":"object"},"Maybe":{"type":"object"},"Nullable":{"type":"object"},"Client":{"type":"object"},"string":{"type":"object"}}}}`,
+			// several discriminator mappings that do not name a variant
+			head + `"paths":{"/a":{"get":{` + ok200 + `}}},"components":{"schemas":{"A":{"type":"object","properties":{"k":{"type":"string"}}},"B":{"type":"object","properties":{"k":{"type":"string"}}},` +
+				`"One":{"oneOf":[{"$ref":"#/components/schemas/A"},{"$ref":"#/components/schemas/B"}],"discriminator":{"propertyName":"k","mapping":{"z":"Nope","y":"Nada","x":"Nil","w":"None"}}}}}}`,
+			// several undeclared path variables and several unsupported parameter shapes
+			head + `"paths":{"/a/{p}/{q}/{r}/{s}":{"get":{` + ok200 + `}}}}`,
+		} {
+			specs = append(specs, spec{fmt.Sprintf("refused-%d", n), []byte(d), gen.Options{API: true, Client: true, DoNotEdit: true}})
+		}
 		// every fixture spec of the repository
 		fix, _ := filepath.Glob("/repo/tests/*/openapi.yaml")
 		for _, p := range fix {
